@@ -72,6 +72,7 @@ class Machine(TreeEval):
         self.on_call = on_call
         self.user_store = store
         self.tree = tree
+        self._kcache = {}
         self.heads = {}
         self.inside = {}          # loop key -> ids of the switches in its body (their choices are re-made on every iteration)
         self.used = set()         # loop variables some expression reads
@@ -506,7 +507,9 @@ class Machine(TreeEval):
                 v = self._str_table(place[1][1], self.ev(place[2]))
                 if v is not None:
                     return v
-            key = show(unstamp(place))
+            key = self._kcache.get(id(place))
+            if key is None:
+                key = self._kcache[id(place)] = show(unstamp(place))
             if key in self.memv:
                 h = self.memv[key]
                 return h[-1]
@@ -602,6 +605,73 @@ class Machine(TreeEval):
                 if s[0] == "str":
                     return ("iter", "seq", tuple(("str", x) for x in s[1].split(sep)), 0)
                 raise Stuck("split of %r" % (s,))
+            if "slice" in name and "[u8]" in name or (last == "from_utf8"):
+                b = self.ev(e[2][0])
+                if isinstance(b, tuple) and b and b[0] == "bytes":
+                    t = b[1]
+                    if last == "first":
+                        return ("agg", "Some", (ord(t[0]),)) if t else ("agg", "None", ())
+                    if last == "last":
+                        return ("agg", "Some", (ord(t[-1]),)) if t else ("agg", "None", ())
+                    if last == "is_empty":
+                        return int(not t)
+                    if last == "len":
+                        return len(t)
+                    if last == "split_last":
+                        return ("agg", "Some", (("agg", "tuple", (ord(t[-1]), ("bytes", t[:-1]))),)) if t else ("agg", "None", ())
+                    if last == "split_first":
+                        return ("agg", "Some", (("agg", "tuple", (ord(t[0]), ("bytes", t[1:]))),)) if t else ("agg", "None", ())
+                    if last == "split_at":
+                        n_ = self.ev(e[2][1])
+                        if not (0 <= n_ <= len(t)):
+                            raise Panic("split_at out of bounds")
+                        return ("agg", "tuple", (("bytes", t[:n_]), ("bytes", t[n_:])))
+                    if last == "from_utf8":
+                        return ("agg", "Ok", (("str", t),))
+                    if last == "index":
+                        rg = e[2][1]
+                        while rg[0] == "ref":
+                            rg = rg[1]
+                        if rg[0] == "agg" and isinstance(rg[1], str) and "ops::range::Range" in rg[1]:
+                            kind = rg[1].split("::")[-1]
+                            vals = [self.ev(x) for x in rg[3]]
+                            lo, hi = 0, len(t)
+                            if kind == "Range":
+                                lo, hi = vals
+                            elif kind == "RangeFrom":
+                                lo = vals[0]
+                            elif kind == "RangeTo":
+                                hi = vals[0]
+                            else:
+                                raise Unsupported("slice index with " + kind)
+                            if not (lo <= hi <= len(t)):
+                                raise Panic("slice index out of range")
+                            return ("bytes", t[lo:hi])
+            if last == "get" and "str" in name and len(e[2]) == 2:
+                sv = self.ev(e[2][0])
+                rg = e[2][1]
+                while rg[0] == "ref":
+                    rg = rg[1]
+                if sv[0] == "str" and rg[0] == "agg" and isinstance(rg[1], str) and "ops::range::Range" in rg[1]:
+                    raw = sv[1].encode("utf-8")
+                    kind = rg[1].split("::")[-1]
+                    lo, hi = 0, len(raw)
+                    vals = [self.ev(x) for x in rg[3]]
+                    if kind == "Range":
+                        lo, hi = vals
+                    elif kind == "RangeFrom":
+                        lo = vals[0]
+                    elif kind == "RangeTo":
+                        hi = vals[0]
+                    else:
+                        raise Unsupported("str::get with " + kind)
+
+                    def boundary(i):
+                        return i == len(raw) or (0 <= i < len(raw) and (raw[i] & 0xC0) != 0x80)
+                    if lo <= hi <= len(raw) and boundary(lo) and boundary(hi):
+                        return ("agg", "Some", (("str", raw[lo:hi].decode("utf-8")),))
+                    return ("agg", "None", ())
+                raise Unsupported("str::get on %r" % (sv,))
             if last == "len" and ("str" in name or "[T]" in name):
                 s = self.ev(e[2][0])
                 if s[0] in ("str", "bytes"):
@@ -697,6 +767,14 @@ class Machine(TreeEval):
         if k == "discr":
             v = self.ev(e[1])
             if isinstance(v, tuple) and v and v[0] == "agg":
+                while len(v) == 4 and (self.facts.adts.get(v[3]) or {}).get("kind") == "struct" and v[2] and isinstance(v[2][0], tuple) \
+                        and v[2][0] and v[2][0][0] == "agg":
+                    v = v[2][0]        # `.0` of a tuple struct is dropped by the normal form: the wrapped value is meant
+                if len(v) == 4:
+                    a = self.facts.adts.get(v[3])
+                    for var in (a or {}).get("variants", ()):
+                        if var["name"] == v[1]:
+                            return var["discr"]
                 m = {"None": 0, "Some": 1, "Ok": 0, "Err": 1, "Continue": 0, "Break": 1}
                 if v[1] in m:
                     return m[v[1]]
@@ -721,7 +799,14 @@ class Machine(TreeEval):
                 if isinstance(v, int) and str(e[2]) == "0":
                     return v
         if k == "agg":
-            return ("agg", e[2], tuple(self._tryev(x) for x in e[3]))
+            flds = tuple(self._tryev(x) for x in e[3])
+            a = self.facts.adts.get(e[1]) if isinstance(e[1], str) else None
+            if a is not None and a.get("kind") == "struct" and flds and all(
+                    isinstance(x, tuple) and x and x[0] == "agg" and x[1] == "PhantomData" for x in flds[1:]) and len(flds) > 1:
+                return flds[0]      # a wrapper whose other fields are zero-sized markers: `.0` is dropped by the normal form
+            if a is not None and a.get("kind") in ("enum", "struct") and a.get("krate") in ("owlchess", "owlchess_base"):
+                return ("agg", e[2], flds, e[1])      # a type of the library: the type is part of the value (variant names repeat)
+            return ("agg", e[2], flds)
         if k == "residual":
             return self.ev(e[1])
         if k == "un" and e[1] == "PtrMetadata":
@@ -791,11 +876,18 @@ class Machine(TreeEval):
         return r[0]
 
 
+_MACHINES = {}
+
+
 def run_function(facts, fn, params, mem=None, oracle=None, deref_self=False, inputs=None, stop=()):
     """Run a (loop-free or deterministic-loop) function model to its return: (value, output pieces)."""
-    fb = FxBuilder(facts, ai_mode=True, max_depth=12, max_blocks=400, stop=stop)
-    tree = fb.tree(fn)
-    m = Machine(facts, tree, mem=mem, oracle=oracle)
+    ck = (id(facts), fn.id, tuple(sorted(stop)))
+    m = _MACHINES.get(ck)
+    if m is None:
+        fb = FxBuilder(facts, ai_mode=True, max_depth=12, max_blocks=400, stop=stop)
+        m = _MACHINES[ck] = Machine(facts, fb.tree(fn))
+    m.reset()
+    m.mem, m.user_oracle = mem, oracle
     for i, v in params.items():
         m.syms[i] = v
     m.inputs = dict(inputs or {})
@@ -817,10 +909,36 @@ def run_function(facts, fn, params, mem=None, oracle=None, deref_self=False, inp
 
 
 def _self_mem(place, m):
-    """`*self` where self is a by-reference parameter holding a plain value."""
-    p = place
-    while p[0] == "field" and str(p[2]) == "0":
-        p = p[1]
-    if p[0] == "deref" and p[1][0] == "param":
-        return m.ev(p[1])
-    raise Unsupported("memory read " + show(place)[:60])
+    """A read through a by-reference parameter that holds a plain value: the place is resolved inside that value."""
+    def val(p):
+        if p[0] == "deref" and p[1][0] == "param":
+            return m.ev(p[1])
+        if p[0] == "deref":
+            return val(p[1])
+        if p[0] == "ref":
+            return val(p[1])
+        if p[0] == "downcast":
+            v = val(p[1])
+            if isinstance(v, tuple) and v and v[0] == "agg" and v[1] == p[2]:
+                return v[2][0] if len(v[2]) == 1 else v      # same convention as expressions: a one-field variant is its payload
+            raise Unsupported("downcast of %r to %s" % (v, p[2]))
+        if p[0] == "field":
+            v = val(p[1])
+            if isinstance(v, int) and str(p[2]) == "0":
+                return v                               # transparent newtype
+            if isinstance(v, tuple) and v and v[0] == "agg":
+                idx = p[3] if len(p) > 3 and isinstance(p[3], int) else None
+                if idx is None and str(p[2]).lstrip("#").isdigit():
+                    idx = int(str(p[2]).lstrip("#"))
+                if idx is None and len(v) == 4:
+                    a = m.facts.adts.get(v[3])
+                    for var in (a or {}).get("variants", ()):
+                        if var["name"] == v[1]:
+                            names = [x.get("name") for x in var["fields"]]
+                            if p[2] in names:
+                                idx = names.index(p[2])
+                if idx is not None and idx < len(v[2]):
+                    return v[2][idx]
+            raise Unsupported("field %s of %r" % (p[2], v))
+        raise Unsupported("memory read " + show(place)[:60])
+    return val(place)
